@@ -488,3 +488,12 @@ def run(prop: str, tier: str) -> int:
         return V.finish("model_checking", cov, ASSUME)
     finally:
         shutil.rmtree(tmp, ignore_errors=True)
+
+
+def replay_case(prop, case, tmp):
+    from . import eng_host as H
+    if "history" not in case:
+        return None
+    row = H._run_case((1, {"history": case["history"], "meas": case["meas"]}, prop))
+    res = H.validate(prop, [row], tmp)
+    return res.verdicts[0][1] if res.verdicts else None
